@@ -38,8 +38,8 @@ func main() {
 	maxSamples := flag.Int("samples", 8, "path models kept per task for translator validation")
 	smtlog := flag.String("smtlog", "", "directory for SMT-LIB2 transcripts")
 	taskTO := flag.Duration("tasktimeout", 0, "per task wall budget")
-	branchTO := flag.Duration("branchtimeout", 10*time.Second, "")
-	assertTO := flag.Duration("asserttimeout", 60*time.Second, "")
+	branchTO := flag.Duration("branchtimeout", 60*time.Second, "")
+	assertTO := flag.Duration("asserttimeout", 120*time.Second, "")
 	tags := flag.String("tags", "verif", "")
 	caseLimit := flag.String("caselimit", "", "per-harness case count limits: VfH_a=5,VfH_b=3 (cases 0..n-1 are run)")
 	stubs := flag.String("stubstr", "", "comma separated functions (ssa full names) returning string that are replaced by an opaque placeholder: formatting is not the subject")
